@@ -87,6 +87,7 @@ Definition modelcheck_case (P : prog) (wc : bool) (k : nat) (limit : nat) : opti
 
 (* the hypotheses of the kind-F theorems (Properties/C02.v, C03.v, C04.v, C19.v) evaluated on one program with the library orders
    recorded from the real chart: is it a plain program, and are the recorded orders valid? *)
-Definition plain_hyps_case (ds : decls) (bs : list nbeh) (input : kwargs) (P : prog) : bool * (bool * bool) :=
-  (graph_plain (b_graph (build ds 0 (Nat.pred (length ds)))) && forallb (fun nb => beh_plain (nb_beh nb)) bs && kw_clean input,
-   (valid_orders_b P, c06_orders_b P)).
+Definition is_plain_case (ds : decls) (bs : list nbeh) (input : kwargs) : bool :=
+  graph_plain (b_graph (build ds 0 (Nat.pred (length ds)))) && forallb (fun nb => beh_plain (nb_beh nb)) bs && kw_clean input.
+Definition valid_orders_case (P : prog) : bool := valid_orders_b P.
+Definition by_depth_case (P : prog) : bool := c06_orders_b P.
